@@ -116,7 +116,7 @@ _DERIVED = {"namespaces_dict", "instantiation_property", "limit_remote_instances
 STORED = ["self.%s == %s" % (_RENAMED.get(n, "_" + n), n) for n in _names[1:]
           if n not in _DERIVED and _RENAMED.get(n, "_" + n) in FIELDS and FIELDS[_RENAMED.get(n, "_" + n)] == PARAM_T[n]]
 STORED.append("self._limit_remote_instances == ite(instances_cap == -1, limit_remote_instances, instances_cap)")     # instances_cap wins over the deprecated option
-contract(SH + ".__init__", params=PARAM_T, raises=INIT_INVALID, ensures=STORED, modifies=["*"], props=["C20", "C13", "C15", "C16"], cover=True,
+contract(SH + ".__init__", params=PARAM_T, raises=INIT_INVALID, ensures=STORED, modifies=["*"], props=["C20", "C13", "C15", "C16", "C19"], cover=True,
     note="raises ValueError iff the reference predicate of the statement holds; every other combination returns normally, with every option stored "
          "under its own name (instances_cap taking precedence over the deprecated limit_remote_instances)")
 
